@@ -137,6 +137,15 @@ class Accounting:
         def atom_norm2(a):
             if a in measured:
                 return ('__lin__', measured[a])
+            # the count an opaque writer *returns* (`compact_encode(..).unwrap()`): the writer's own rule shows that it returns the number of
+            # bytes it wrote (R18.1 count clause), so the returned count is the ghost quantity of that very call
+            try:
+                from pat import _through_unwraps
+                x = _through_unwraps(a)
+                if x[0] == 'call' and len(x) > 3 and self.delta_of(('call', x[1], x[2], x[3], x, {})) == 'opaque':
+                    return ('ghost', x[3])
+            except Exception:
+                pass
             return self.atom_norm(a)
         # the accumulator side
         start_is_head = s in loops
